@@ -33,6 +33,12 @@ NoteIn(text, note) == \A ln \in SeqToSet(Lines(note)) : Contains(text, TrimSpace
 DebArchField(f, c) == IF EffPlatform(c) # "linux" THEN EffPlatform(c) \o "-" \o ArchOf(f, c) ELSE ArchOf(f, c)
 DefaultMaintainer == "Unset Maintainer <unset@localhost>"
 
+IpkReservedFields == {"abiversion", "alternatives", "architecture", "auto-installed", "conffiles", "conflicts", "depends", "description", "essential",
+  "filename", "homepage", "installed-size", "installed-time", "license", "maintainer", "md5sum", "package", "pre-depends", "priority", "provides",
+  "recommends", "replaces", "section", "sha256sum", "size", "status", "suggests", "tags", "vendor", "version"}
+IpkWrittenFields == {"ABIVersion", "Alternatives", "Architecture", "Auto-Installed", "Conflicts", "Depends", "Description", "Essential", "Homepage",
+  "Installed-Size", "License", "Maintainer", "Package", "Pre-Depends", "Priority", "Provides", "Recommends", "Replaces", "Section", "Suggests", "Tags",
+  "Vendor", "Version"}
 KVKeys(kvs) == { kvs[i].k : i \in 1..Len(kvs) }
 KVVal(kvs, k) == kvs[CHOOSE i \in 1..Len(kvs) : kvs[i].k = k].v
 KVAll(kvs, k) == LET s == SelectSeq(kvs, LAMBDA x : x.k = k) IN [i \in 1..Len(s) |-> s[i].v]
@@ -80,6 +86,7 @@ MetaClauses(f, c, evs) ==
             \cup Fail(IffSet(evs, in, "Replaces", JoinRel(c.replaces)), f, "Replaces")
             \cup Fail(IffSet(evs, in, "Provides", JoinRel(NonBlank(c.provides))), f, "Provides")
             \cup UNION { Fail(IffSet(evs, in, k, KVVal(fld, k)), f, "fields") : k \in KVKeys(fld) }
+            \cup Fail(\A i \in 1..Len(evs) : (evs[i].ev = "meta" /\ evs[i].in = in) => Len(evs[i].values) <= 1, f, "field_stated_once")
             \cup UNION { Fail(ListIs(evs, "triggers", TrigName(k), KVAll(trg, k)), f, "triggers") : k \in KVKeys(trg) }
             \cup Fail(trg # <<>> \/ ~(\E i \in 1..Len(evs) : evs[i].ev = "meta" /\ evs[i].in = "triggers"), f, "triggers")
             \cup (IF c.has_changelog
@@ -116,7 +123,11 @@ MetaClauses(f, c, evs) ==
             \cup Fail(IffSet(evs, in, "Tags", JoinRel(c.ipk.tags)), f, "Tags")
             \cup Fail(IffSet(evs, in, "Auto-Installed", IF c.ipk.auto_installed THEN "yes" ELSE ""), f, "Auto-Installed")
             \cup Fail(IffSet(evs, in, "Essential", IF c.ipk.essential THEN "yes" ELSE ""), f, "Essential")
-            \cup UNION { Fail(IffSet(evs, in, k, KVVal(fld, k)), f, "fields") : k \in KVKeys(fld) }
+            \cup Fail(\A i \in 1..Len(evs) : (evs[i].ev = "meta" /\ evs[i].in = in) => Len(evs[i].values) <= 1, f, "field_stated_once")
+            \* a custom field appears with its value - unless it names (in any letter case) a field the packager writes or
+            \* opkg owns: those are stripped (ipk.stripDisallowedFields), so a field the packager writes is stated once, by it
+            \cup UNION { Fail(IF ToLowerStr(k) \in IpkReservedFields THEN (k \in IpkWrittenFields \/ ~HasMeta(evs, in, k))
+                                ELSE IffSet(evs, in, k, KVVal(fld, k)), f, "fields") : k \in KVKeys(fld) }
     [] f = "rpm" ->
          LET in == "hdr"
              ch == c.changelog
